@@ -268,6 +268,21 @@ def history_case(case, fail):
                      f'after steps {case["steps"][:case["steps"].index(step) + 1]} '
                      f'the object differs from a fresh deformed code in {diff}')
                 break
+            # a noise model handed this object relabels as it does on a code
+            # that was never deformed (with and without explicit kwargs)
+            from panqec.error_models import PauliErrorModel
+            fresh = domain.build_code(cls, size)
+            for nm, kw in [(m, k) for m, k in domain.deformations(cls) if m is not None] + \
+                    [(m, {}) for m in domain.get_class(cls).deformation_names]:
+                t_obj = PauliErrorModel(0.2, 0.3, 0.5, deformation_name=nm, deformation_kwargs=dict(kw)
+                                        ).probability_distribution(code, 0.1)
+                t_new = PauliErrorModel(0.2, 0.3, 0.5, deformation_name=nm, deformation_kwargs=dict(kw)
+                                        ).probability_distribution(fresh, 0.1)
+                if any(not np.array_equal(np.asarray(a), np.asarray(b)) for a, b in zip(t_obj, t_new)):
+                    fail('noise_independent_of_code_history',
+                         f'after steps {case["steps"][:case["steps"].index(step) + 1]} a noise model '
+                         f'{nm} {kw} gives this object a different channel than a never-deformed code')
+                    break
     return nt
 
 
